@@ -17,7 +17,7 @@ func runC13(c *Check, tier string) {
 	c.NotDec = "multi-invocation histories, the asynchronous taint removal racing the next build, whether outputs actually changed."
 	g := analyseGate(c, "R13a")
 	ruleR13a(c, g)
-	ruleR13b(c, g)
+	ruleR13b(c, g, "R13b")
 	ruleR13c(c, "R13c")
 	ruleR13d(c)
 	ruleRecordCacheIndependent(c, "R13e")
@@ -155,14 +155,14 @@ func ruleR13a(c *Check, g *gateInfo) {
 	}
 }
 
-func ruleR13b(c *Check, g *gateInfo) {
-	c.Rule("R13b", "TaintCache.Clear is reachable only from the executing method, only after the completion call returned nil, only when the target was tainted, and for the executed target's label; TaintCache.Taint is called only by the taint command on selected targets", 4)
+func ruleR13b(c *Check, g *gateInfo, rule string) {
+	c.Rule(rule, "TaintCache.Clear is reachable only from the executing method, only after the completion call returned nil, only when the target was tainted, and for the executed target's label; TaintCache.Taint is called only by the taint command on selected targets", 4)
 	if g == nil {
 		return
 	}
 	ex := g.Ex
-	clear := anchor(c, "R13b", "caching", "TaintCache", "Clear")
-	taint := anchor(c, "R13b", "caching", "TaintCache", "Taint")
+	clear := anchor(c, rule, "caching", "TaintCache", "Clear")
+	taint := anchor(c, rule, "caching", "TaintCache", "Taint")
 	if clear == nil || taint == nil {
 		return
 	}
@@ -173,12 +173,12 @@ func ruleR13b(c *Check, g *gateInfo) {
 			okOwner = false
 		}
 	}
-	c.Require(okOwner, "R13b", "clear-owner", "TaintCache.Clear is called only inside "+c.P.FuncName(ex.ExecMethod), "TaintCache.Clear is called from "+names(c, callers)+" (expected only the executing method)", "-")
+	c.Require(okOwner, rule, "clear-owner", "TaintCache.Clear is called only inside "+c.P.FuncName(ex.ExecMethod), "TaintCache.Clear is called from "+names(c, callers)+" (expected only the executing method)", "-")
 	// the site in ExecMethod leading to Clear
 	sites := sitesReaching(c, ex.ExecMethod, fnSet(clear))
 	completes := callsToFn(c, ex.ExecMethod, ex.Complete)
 	if len(sites) == 0 || len(completes) == 0 {
-		c.Unknown("R13b", "clear-after-success", "no site leading to Clear, or no completion call, in the executing method", "-")
+		c.Unknown(rule, "clear-after-success", "no site leading to Clear, or no completion call, in the executing method", "-")
 	}
 	for _, s := range sites {
 		why := ""
@@ -187,7 +187,7 @@ func ruleR13b(c *Check, g *gateInfo) {
 				why = w
 			}
 		}
-		c.Require(why == "", "R13b", "clear-after-success/"+c.P.FuncName(ex.ExecMethod), "the taint is cleared only after the completion (outputs + result stored) returned nil", "taint removal is "+why, c.P.InstrPos(s))
+		c.Require(why == "", rule, "clear-after-success/"+c.P.FuncName(ex.ExecMethod), "the taint is cleared only after the completion (outputs + result stored) returned nil", "taint removal is "+why, c.P.InstrPos(s))
 		// only when tainted: dominated by a true-branch on a bool parameter / IsTainted result
 		okT := true
 		if ok, _ := engine.PathExists(ex.ExecMethod, nil, engine.IsInstr(s), engine.PathQuery{CutEdge: engine.CutEdgesWhere(func(a engine.Atom) bool {
@@ -206,13 +206,13 @@ func ruleR13b(c *Check, g *gateInfo) {
 		})}); ok {
 			okT = false
 		}
-		c.Require(okT, "R13b", "clear-only-if-tainted/"+c.P.FuncName(ex.ExecMethod), "the removal is guarded by the tainted flag", "the taint entry is removed even when the target was not tainted", c.P.InstrPos(s))
+		c.Require(okT, rule, "clear-only-if-tainted/"+c.P.FuncName(ex.ExecMethod), "the removal is guarded by the tainted flag", "the taint entry is removed even when the target was not tainted", c.P.InstrPos(s))
 	}
 	// Clear's label argument is the executed target's label
 	for _, cs := range c.G.CallersOf(clear) {
 		args := cs.Common().Args
 		_, ok := fieldReadOn(args[len(args)-1], "Label")
-		c.Require(ok, "R13b", "clear-own-label/"+c.P.FuncName(cs.Parent()), "Clear is given a target's .Label", "Clear is not given the label of the executed target", c.P.InstrPos(cs))
+		c.Require(ok, rule, "clear-own-label/"+c.P.FuncName(cs.Parent()), "Clear is given a target's .Label", "Clear is not given the label of the executed target", c.P.InstrPos(cs))
 	}
 	// who may taint
 	runs := c.G.CobraRunFuncs()
@@ -223,7 +223,7 @@ func ruleR13b(c *Check, g *gateInfo) {
 			okTaint = false
 		}
 	}
-	c.Require(okTaint, "R13b", "taint-owner", "TaintCache.Taint is called only from a command entry point ("+names(c, tcallers)+")", "TaintCache.Taint is called from "+names(c, tcallers)+"; only the taint command may write taints", "-")
+	c.Require(okTaint, rule, "taint-owner", "TaintCache.Taint is called only from a command entry point ("+names(c, tcallers)+")", "TaintCache.Taint is called from "+names(c, tcallers)+"; only the taint command may write taints", "-")
 }
 
 // R13c: bypassing the cache still yields a local output hash that is propagated.
